@@ -120,6 +120,9 @@ def run(ck):
         "16/1 | io=accept:1,accept:2,waitflag:s,data:1:2,data:2:3,close:2,close:1,accept:3,close:3,setflag:d ; main=mode:1:sync,mode:2:sync,setflag:s,waitflag:d,recv:2:8:200,recv:1:8:200,recv:2:8:100,expectall:1,expectall:2",
         # two sessions: streams do not mix
         "8 | io=accept:1,accept:2,waitflag:s,data:1:2,data:2:3,data:1:1,close:2,close:1 ; main=mode:1:sync,mode:2:sync,setflag:s ; a=waitflag:s,recv:1:4:200,recv:1:4:200,recv:1:4:200 ; b=waitflag:s,recv:2:2:200,recv:2:2:200,recv:2:2:200",
+        # the tombstone GC (threshold 1) runs while a LIVE Sync-mode session has an empty buffer and no reader parked: its buffer is
+        # not a tombstone - bytes that arrive afterwards are still buffered and returned, a second GC round included
+        "16/1 | io=accept:1,accept:2,accept:3,waitflag:s,close:2,close:3,data:1:4,setflag:d,waitflag:s2,accept:4,close:4,data:1:2,setflag:d2 ; main=mode:1:sync,setflag:s,waitflag:d,recv:1:4:200,setflag:s2,waitflag:d2,recv:1:4:200,expectall:1",
     ]
     lines = []
     nsched = 40 if thorough else 6
